@@ -1,12 +1,13 @@
 SPECIFICATION Spec
 CONSTANTS
-  Kinds = {"registrant", "EOF", "closed", "EPIPE", "RST", "REFUSED", "ABORTED", "HOSTUNREACH", "timeout", "ETIMEDOUT", "NETUNREACH", "NETDOWN", "NOBUFS", "NOTCONN", "EINVAL", "EIO", "other", "EMFILE", "lookup"}
-  Wraps = {"field", "op", "oploc", "sys", "bare", "fmt", "names-ip"}
+  Kinds = {"registrant", "EOF", "closed", "EPIPE", "RST", "REFUSED", "ABORTED", "HOSTUNREACH", "timeout", "ETIMEDOUT", "NETUNREACH", "NETDOWN", "NOBUFS", "NOTCONN", "EINVAL", "EIO", "other", "EMFILE", "lookup", "ctxdeadline"}
+  Wraps = {"field", "op", "oploc", "sys", "bare", "fmt", "names-ip", "flat", "ctx"}
   Fams = {"v4", "v6", "v4mapped"}
   LogIPs = {TRUE, FALSE}
   Sanitizer = "listed"
   RawDeadlineLog = TRUE
   RawSites = {"accept.File", "geoip.CC", "geoip.ASN"}
+  ConnectFailLog = "none"
   IngestPrintsRegistrant = {"ingest.drop-log-names-registrant"}
 VIEW view
 INVARIANTS TypeOK NoTaintAtSink
